@@ -449,6 +449,23 @@ func (d *drv) exec(c Ev) {
 				}
 				cb(err, n, tok)
 			})
+		case "readall":
+			// N units (bytes) in one operation; the projection is the first unit's token, or -1 if the
+			// buffer does not hold N consecutive units
+			b := d.buf(c.N)
+			ob.file.AsyncReadAll(b, func(err error, n int) {
+				tok := 0
+				if err == nil && n > 0 {
+					tok = int(b[0])
+					for k := 1; k < n; k++ {
+						if int(b[k]) != tok+k {
+							tok = -1
+							break
+						}
+					}
+				}
+				cb(err, n, tok)
+			})
 		case "write":
 			b := d.buf(1)
 			ob.tok++
